@@ -199,6 +199,7 @@ def run(ctx):
         kind = "tx" if rng.chance(1, 2) else "rx"
         cases.append((kind, list(rng.bytes(rng.choice([0, 1, 4, 5, 6, 7, 8, 9, 10, 11, 12, 20, 154, 156, 159, 161, 300, 455, 460])))))
     pobs = [U.do_parse(k, d) for k, d in cases]
+    U.reuse_check(ctx, cases, pobs, "c14-parse-history")
     ctx.correspond("parse_msg(hostile)", "Trxd", list(range(len(cases))),
                    lambda j: "%s %s" % ("w_trxd_tx_parse" if cases[j][0] == "tx" else "w_trxd_rx_parse", " ".join(map(str, cases[j][1]))),
                    lambda j: pobs[j], show=lambda j: dict(kind=cases[j][0], octets=cases[j][1][:16], n=len(cases[j][1])))
